@@ -2,7 +2,7 @@
 #![allow(dead_code)]
 use super::*;
 use crate::kv::*;
-use crate::{kv_cover, kv_end};
+use crate::{kv_assert, kv_cover, kv_end};
 
 /// each attribute is one independent bit: set_x / unset_x change exactly is_x, is_x reads exactly
 /// that bit; bold / faint are mutually exclusive readings of the intensity; colours are the fields
@@ -29,17 +29,17 @@ pub(crate) fn t_pen_bits() {
     let k = any_usize();
     assume(k < 5);
     if k == which as usize {
-        assert!(b[k] == set, "[C08] setting / clearing an attribute is visible through its accessor");
+        kv_assert!(b[k] == set, "[C08] setting / clearing an attribute is visible through its accessor");
     } else {
-        assert!(b[k] == a[k], "[C08] every attribute is independent of the others");
+        kv_assert!(b[k] == a[k], "[C08] every attribute is independent of the others");
     }
-    assert!(p.foreground() == p0.foreground && p.background() == p0.background && p.intensity == p0.intensity, "[C08] attributes do not disturb colours or intensity");
-    assert!(p.is_bold() == (p0.intensity == Intensity::Bold) && p.is_faint() == (p0.intensity == Intensity::Faint), "[C08] bold and faint read the intensity");
-    assert!(!(p.is_bold() && p.is_faint()), "[C08] bold and faint are mutually exclusive");
-    assert!(pen_ok(&p), "[C02] attribute bits stay within the five attributes");
+    kv_assert!(p.foreground() == p0.foreground && p.background() == p0.background && p.intensity == p0.intensity, "[C08] attributes do not disturb colours or intensity");
+    kv_assert!(p.is_bold() == (p0.intensity == Intensity::Bold) && p.is_faint() == (p0.intensity == Intensity::Faint), "[C08] bold and faint read the intensity");
+    kv_assert!(!(p.is_bold() && p.is_faint()), "[C08] bold and faint are mutually exclusive");
+    kv_assert!(pen_ok(&p), "[C02] attribute bits stay within the five attributes");
     let d = Pen::default();
-    assert!(d.is_default() && !d.is_bold() && !d.is_italic() && d.foreground().is_none() && d.background().is_none(), "[C08] the default pen has no attribute and no colour");
-    assert!(p0.is_default() == (p0 == d), "[C08] is_default recognises exactly the default pen");
+    kv_assert!(d.is_default() && !d.is_bold() && !d.is_italic() && d.foreground().is_none() && d.background().is_none(), "[C08] the default pen has no attribute and no colour");
+    kv_assert!(p0.is_default() == (p0 == d), "[C08] is_default recognises exactly the default pen");
     kv_cover!(set && !a[which as usize], "an attribute gets set");
     kv_cover!(!set && a[which as usize], "an attribute gets cleared");
     kv_end!();
